@@ -341,7 +341,8 @@ def check_key_packet_rebuilds(rep, prog, rid):
                           'a key packet rebuilt from another must take creation time, algorithm and key material from that one packet '
                           '(they enter the fingerprint together)', where=fn.where,
                           expected='%s.created / .pkalg / .keymaterial <- one source packet' % base,
-                          found={a: [v for _, v in srcs[a]] for a in sorted(srcs)})
+                          found={a: [v for _, v in srcs[a]] for a in sorted(srcs)},
+                          detail='key packet %s: created / pkalg / keymaterial all from %s' % (base, roots[0]))
     return sites
 
 
@@ -473,7 +474,8 @@ def check_copy_carries_serialised(rep, prog, rid):
                       'copy carries %s%s' % (sorted(R), '; NOT carried from the source: %s' % ['%s = %s' % (a, carried.get(a)) for a in bad] if bad else ''),
                       'a copy must serialise to the same octets as its source (%s enters the fingerprint): every attribute the serialiser reads '
                       'must be carried over from the source object, not recomputed or defaulted' % what, where=cp.where,
-                      expected={a: '%s.%s' % (first, a) for a in sorted(R)}, found={a: carried.get(a) for a in sorted(R)})
+                      expected={a: '%s.%s' % (first, a) for a in sorted(R)}, found={a: carried.get(a) for a in sorted(R)},
+                      detail='copy carries every serialised attribute %s from the source (%s)' % (sorted(R), what))
     return n
 
 
